@@ -52,19 +52,6 @@ theorem nextBar_eq (s : RateOfChange F) (b : Bar F) : s.nextBar b = s.next b.clo
   unfold nextBar
   cases h : s.next b.close <;> simp [h]
 
-/-- `reset` rebuilds exactly the state `new` builds (state equality: any history, any values) -/
-theorem reset_eq (s : RateOfChange F) (h : WF s) : s.reset = some (fresh s.period) := by
-  unfold reset
-  simp [fill_all _ _ _ h.size, fresh]
-
 theorem period_fn_eq (s : RateOfChange F) : s.period_fn = s.period := rfl
-
-theorem display_eq (fmt : F → String) (s : RateOfChange F) :
-    display fmt s = "ROC(" ++ toString s.period ++ ")" := rfl
-
-theorem default_eq : (default_ : Option (RateOfChange F)) = some (fresh 9) := by
-  unfold default_
-  rw [new_eq]
-  simp [unwrap, isizeMax]
 
 end TaRs.Gen.RateOfChange
